@@ -58,6 +58,7 @@ SuccessOK(fn, kind, ret) ==
 ClassWhy(ev) ==
   IF ev.over # 0 THEN "an error was stored over an existing one"
   ELSE IF ev.same # 1 THEN "the call without an error slot returned something else"
+  ELSE IF "keep" \in DOMAIN ev /\ ev.keep # 1 THEN "called with a slot that already held an error, the call replaced, freed or changed the caller's error"
   ELSE IF "rep" \in DOMAIN ev /\ ev.rep # 1 THEN "the same call repeated immediately gave a different outcome (value, error, code or message)"
   ELSE IF ev.slot = "empty" \/ ev.slot = "none" THEN
          (IF SuccessOK(ev.fn, ev.kind, ev.ret) THEN "" ELSE "no error reported but the result is " \o ev.ret \o " (kind " \o KindOf(ev.fn) \o ")")
